@@ -166,12 +166,12 @@ pub fn enumerate(snips: &[Snip], depth: usize, path_filter: &dyn Fn(&Snip, &[usi
                 continue;
             }
             // `pu` closures are legal around statements that are themselves pure (break / continue)
-            if !pure && !matches!(sn.kind, Kind::SNoLoop) && p.iter().any(|c| STMT_CTXS[*c].name == "pu-closure") {
+            if !pure && !matches!(sn.kind, Kind::SNoLoop) && p.iter().any(|c| STMT_CTXS[*c].name.starts_with("pu-closure")) {
                 continue;
             }
             if matches!(sn.kind, Kind::SNoLoop) {
                 // everything inside a `pu` closure must itself be legal in pure code
-                if let Some(j) = p.iter().rposition(|c| STMT_CTXS[*c].name == "pu-closure") {
+                if let Some(j) = p.iter().rposition(|c| STMT_CTXS[*c].name.starts_with("pu-closure")) {
                     if p[..j].iter().any(|c| !STMT_CTXS[*c].pure_ok) {
                         continue;
                     }
